@@ -197,7 +197,8 @@ def eval_pair_handler(kind, t, L, R, pairs, acp=None):
     names each peer uses for its own ends):
       lmin / rmin    the processed group is the primary one iff it holds the lowest-numbered of the left / right
                      peer's connected ports; the others get a different subnet
-      lname / rname  the subnet is numbered after the lowest-numbered connected port of the left / right peer"""
+      lname / rname  the subnet is numbered after the lowest-numbered connected port of the left / right peer
+      lses / rses    the session-level options bfd and vrf are set for the primary group only"""
     left, right, sess = {}, {}, {}
     ln, rn = int(L["n"]), int(R["n"])
     if t.get("guard") == "lt" and not ln < rn:
@@ -213,13 +214,19 @@ def eval_pair_handler(kind, t, L, R, pairs, acp=None):
         if mode[1:] == "min":
             if min(_pnum(pr[side]) for pr in pairs) != own_all:
                 third += 128
-        else:
+        elif mode[1:] == "name":
             second += 2 * (1 + own_all)
     left["addr"] = "10.%d.%d.%d/31" % (second, third, 2 * pk)
     right["addr"] = "10.%d.%d.%d/31" % (second, third, 2 * pk + 1)
     if plan == 2:                              # shares the left address of plan 0, own right address
         right["addr"] = "10.%d.%d.%d/31" % (second, third, 2 * pk + 129)
     _common_attrs(t, left, right, sess, ln, rn)
+    if mode in ("lses", "rses") and kind == "direct":
+        # session-level options on the primary group only (the one holding the peer's lowest-numbered connected port):
+        # a handler may set an option for one of several parallel links and leave the others at their defaults
+        if min(_pnum(pr[0 if mode[0] == "l" else 1]) for pr in pairs) != min(_pnum(p) for p in acp[0 if mode[0] == "l" else 1]):
+            sess.pop("bfd", None)
+            sess.pop("vrf", None)
     sel = t.get("if", "port" if kind == "direct" else "none")
     if kind == "direct":
         for side, obj in (("L", left), ("R", right)):
